@@ -276,6 +276,11 @@ def shard(ctx: Ctx, acc: Acc) -> None:
 			if gi % ctx.nshards == ctx.shard and not SKIP_GROUPING:
 				units.append(Unit(uid, p, 'grouping'))
 				uid += 1
+		from vf.gen.catalogue import catalogue_programs
+		for ci, p in enumerate(catalogue_programs()):
+			if (ci + 2) % ctx.nshards == ctx.shard:
+				units.append(Unit(uid, p, 'catalogue'))
+				uid += 1
 		if ctx.shard == 0:
 			from vf.gen.typed import Entry, Program, INT
 			units.append(Unit(uid, Program(WITNESS_RANGE_BOUND, [Entry('bound', [('n', INT)], INT, [[3], [7]])], {}, {}, set(), []), 'witness-range-bound'))
